@@ -215,7 +215,23 @@ def snapshot(m, o):
     }
 
 
+_PARAMS_CACHE = {}
+_PARAM_KEYS = ("num_epochs", "es_thr", "es_pat", "es_burn", "rlr_thr", "rlr_pat", "rlr_burn", "rlr_cool", "factor", "eps",
+               "keep", "fmt", "lr_mode", "lr_exp")
+
+
 def make_params(cfg):
+    """The parameter object (never mutated by the controller) is built once per configuration."""
+    key = tuple(cfg.get(k) for k in _PARAM_KEYS)
+    p = _PARAMS_CACHE.get(key)
+    if p is None:
+        if len(_PARAMS_CACHE) > 64:
+            _PARAMS_CACHE.clear()
+        p = _PARAMS_CACHE[key] = _make_params(cfg)
+    return p
+
+
+def _make_params(cfg):
     from pydrobert.torch.training import TrainingStateParams
 
     mf, of, _ = FMTS[cfg.get("fmt", "default")]
@@ -308,6 +324,19 @@ def scratch():
         yield d
     finally:
         shutil.rmtree(d, ignore_errors=True)
+
+
+@contextlib.contextmanager
+def in_dir(path):
+    """Run with ``path`` as working directory, so that a session rooted at "." sees the same
+    path strings in every run (the controller iterates over a *set* of paths when cleaning up;
+    with equal strings and PYTHONHASHSEED fixed by ./check the order is a function of the case)."""
+    old = os.getcwd()
+    os.chdir(path)
+    try:
+        yield
+    finally:
+        os.chdir(old)
 
 
 @contextlib.contextmanager
